@@ -307,6 +307,11 @@ func EncodeRemainLength(r io.ByteReader) (int, error) {
 			return 0, codes.ErrMalformed
 		}
 		if (digit & 128) == 0 {
+			// the encoding must use the minimum number of bytes [MQTT-1.5.5-1]: the last of
+			// several bytes is not zero
+			if digit == 0 && multiplier != 0 {
+				return 0, codes.ErrMalformed
+			}
 			break
 		}
 		multiplier += 7
